@@ -252,7 +252,10 @@ class _FunctionStepper(Stepper):
 
     def load_instance_state(self, saved_state: SAVED_STATE_TYPE, load_context: persistence.LoadSaveContext) -> None:
         super().load_instance_state(saved_state, load_context)
-        self._fn = getattr(self._workchain.__class__, saved_state['_fn'])
+        # the function is the one of the instruction this stepper is recreated from, as for every other stepper;
+        # looking the saved name up on the class fails for functions that are not attributes of the class (or not
+        # under their __name__) and picks another function when a subclass overrides the step
+        self._fn = load_context.func_spec._fn
 
     def step(self) -> Tuple[bool, Any]:
         return True, self._fn(self._workchain)
